@@ -27,8 +27,11 @@ func c30Check(c c30Case, r *evid.Rec) []evid.Disc {
 		}
 		want := !strings.ContainsAny(c.S, "+#") && !strings.HasPrefix(c.S, "$SYS")
 		if got != want {
-			return []evid.Disc{evid.D(fmt.Sprintf("C30-topic-%s", map[bool]string{true: "accepts-invalid", false: "rejects-valid"}[got]),
-				"IsValidFilter(%q, forPublish) = %v, reference %v", c.S, got, want)}
+			sig := fmt.Sprintf("C30-topic-%s", map[bool]string{true: "accepts-invalid", false: "rejects-valid"}[got])
+			if !got && len(c.S) >= 4 && strings.EqualFold(c.S[:4], "$SYS") && c.S[:4] != "$SYS" && !strings.ContainsAny(c.S, "+#") {
+				sig = "C30-topic-rejects-case-variant-of-$SYS"
+			}
+			return []evid.Disc{evid.D(sig, "IsValidFilter(%q, forPublish) = %v, reference %v", c.S, got, want)}
 		}
 		return nil
 	}
@@ -37,6 +40,9 @@ func c30Check(c c30Case, r *evid.Rec) []evid.Disc {
 		return nil
 	}
 	sig := "C30-filter-rejects-valid"
+	if ls := reftopic.Levels(c.S); !got && strings.EqualFold(ls[0], "$share") && ls[0] != "$share" {
+		sig = "C30-filter-rejects-valid-with-case-variant-of-$share"
+	}
 	if got {
 		sig = "C30-filter-accepts-invalid"
 		name, rest, shared, ok := reftopic.SplitShare(c.S)
@@ -71,11 +77,17 @@ func c30NonTrivial(s string) bool {
 }
 
 func TestC30(t *testing.T) {
-	r := evid.New("C30", "exhaustive: every concatenation of <=6 tokens from {/,+,#,$,a,share,$share,$SYS} (de-duplicated), each judged as subscription filter and as publish topic against reftopic; rapid: random strings over a wider alphabet incl. multi-byte runes; non-trivial = string contains a wildcard, '$', an empty level or is empty; distinct by (string, mode)")
+	r := evid.New("C30", "exhaustive: every concatenation of <=6 tokens from {/,+,#,$,a,share,$share,$SYS} (de-duplicated), each judged as subscription filter and as publish topic against reftopic; rapid: random strings over a wider alphabet incl. multi-byte runes and mixed-case variants of the reserved prefixes ($sys, $Share); fixed witnesses for those variants; non-trivial = string contains a wildcard, '$', an empty level or is empty; distinct by (string, mode)")
 	defer r.Finish(t)
 	if evid.ReplayMode() {
 		evid.Replay(t, r, replayPath(), c30Check)
 		return
+	}
+	// case variants of the reserved prefixes (found by the random strings of the thorough tier; the token alphabet
+	// below has none): a fixed set of witnesses, so that every run reports the listed findings or their absence
+	for _, w := range []c30Case{{"$sYs/a", true}, {"$sys", true}, {"$Sys/x/y", true}, {"$sYs/a", false}, {"$Share//a", false}, {"$SHARE/g", false}, {"$Share/g/a", false}} {
+		evid.Witness(t, r, w, c30Check)
+		r.Eval()
 	}
 	tokens := []string{"/", "+", "#", "$", "a", "share", "$share", "$SYS"}
 	seen := map[string]struct{}{}
@@ -122,7 +134,7 @@ func TestC30(t *testing.T) {
 	gen := func(rt *rapid.T) c30Case {
 		var s string
 		if rapid.Bool().Draw(rt, "tok") {
-			s = strings.Join(rapid.SliceOfN(rapid.SampledFrom(append(tokens, "b", "g", "//", "+/", "/#")), 0, 10).Draw(rt, "toks"), "")
+			s = strings.Join(rapid.SliceOfN(rapid.SampledFrom(append(tokens, "b", "g", "//", "+/", "/#", "$sys", "$Sys", "$Share", "$SHARE")), 0, 10).Draw(rt, "toks"), "")
 		} else {
 			s = string(rapid.SliceOfN(rapid.SampledFrom(runes), 0, 12).Draw(rt, "runes"))
 		}
